@@ -4,8 +4,8 @@ import (
 	"bytes"
 	"encoding/binary"
 	"fmt"
-	"strings"
 	"reflect"
+	"strings"
 
 	"github.com/hujm2023/go-sms-protocol/packet"
 	"github.com/hujm2023/go-sms-protocol/smgp"
@@ -63,6 +63,9 @@ func containerParsers() []parsers {
 				err = reserialised("smpp.ReadTLVs", m.Bytes(), out)
 			}
 			m.SetTLV(smpp.NewTLV(0xFFFE, []byte("caller's own")))
+			for _, t := range m { // ... and edits the values of its own copy
+				scribbleOwn(t.Value())
+			}
 			return out, err
 		}},
 		{"smpp.ReadTLVs1", func(b []byte) ([]pdus.TLV, error) {
@@ -74,6 +77,9 @@ func containerParsers() []parsers {
 				err = reserialised("smpp.ReadTLVs1", m.Bytes(), out)
 			}
 			m.SetTLV(smpp.NewTLV(0xFFFE, []byte("caller's own")))
+			for _, t := range m { // ... and edits the values of its own copy
+				scribbleOwn(t.Value())
+			}
 			return out, err
 		}},
 		{"smgp.ParseOptions", func(b []byte) ([]pdus.TLV, error) {
@@ -83,6 +89,9 @@ func containerParsers() []parsers {
 				err = reserialised("smgp.ParseOptions", m.Serialize(), out)
 			}
 			m.Add(smgp.NewOption(smgp.Tag(0xFFFE), []byte("caller's own")))
+			for _, o := range m {
+				scribbleOwn(o.Value())
+			}
 			return out, err
 		}},
 		{"smgp.ReadOptions", func(b []byte) ([]pdus.TLV, error) {
@@ -94,8 +103,18 @@ func containerParsers() []parsers {
 				err = reserialised("smgp.ReadOptions", m.Serialize(), out)
 			}
 			m.Add(smgp.NewOption(smgp.Tag(0xFFFE), []byte("caller's own")))
+			for _, o := range m {
+				scribbleOwn(o.Value())
+			}
 			return out, err
 		}},
+	}
+}
+
+// scribbleOwn: the caller edits a value of a container it was given (clears a flag, masks a number).
+func scribbleOwn(v []byte) {
+	for i := range v {
+		v[i] = ^v[i]
 	}
 }
 
@@ -371,6 +390,80 @@ func init() {
 						}
 					}); pan {
 						c.Failf("long-value-"+fw.PanicSig(v, st)+"/Len", "Len with a %d-octet value: %v\n%s", n, v, st)
+					}
+				},
+			},
+			{
+				Name: "longvalue-neighbours", Exhaustive: "an oversize value (65532..70000 octets) beside 1..3 ordinary parameters, both containers, 8 serialisations each (map order)",
+				N: func(fw.Tier) uint64 { return 48 },
+				Run: func(c *fw.Case) {
+					n := []int{65532, 65535, 65536, 65540, 69999, 70000}[c.Idx%6]
+					big := c.R.Bytes(n)
+					small := map[uint16][]byte{}
+					for len(small) < 1+int(c.Idx/6)%3 {
+						small[uint16(c.R.Range(1, 0x1000))] = nonNul(c.R, c.R.Range(1, 6))
+					}
+					delete(small, 0x1234)
+					builds := map[string]func() []byte{
+						"smpp.TLVs.Bytes": func() []byte {
+							m := smpp.TLVs{}
+							m.SetTLV(smpp.NewTLV(0x1234, big))
+							for t, v := range small {
+								m.SetTLV(smpp.NewTLV(t, v))
+							}
+							return m.Bytes()
+						},
+						"smgp.Options.Serialize": func() []byte {
+							m := smgp.Options{}
+							m.Add(smgp.NewOption(smgp.Tag(0x1234), big))
+							for t, v := range small {
+								m.Add(smgp.NewOption(smgp.Tag(t), v))
+							}
+							return m.Serialize()
+						},
+					}
+					for name, f := range builds {
+						for rep := 0; rep < 8; rep++ {
+							var out []byte
+							c.Evals(1)
+							if pan, v, st := fw.Try(func() { out = f() }); pan {
+								c.Failf("long-value-"+fw.PanicSig(v, st)+"/"+name, "%s with a %d-octet value beside %d ordinary parameters: %v\n%s", name, n, len(small), v, st)
+								break
+							}
+							l, clean := strictWalk(out)
+							if !clean {
+								c.Failf("long-value-inconsistent/"+name+"/neighbours", "%s with a %d-octet value beside %d ordinary parameters emits %d octets that are not a sequence of complete triplets", name, n, len(small), len(out))
+								break
+							}
+							seen := map[uint16]int{}
+							bad := ""
+							for _, t := range l {
+								seen[t.Tag]++
+								switch want, ok := small[t.Tag]; {
+								case t.Tag == 0x1234:
+									if n <= 65535 && len(t.Val) != n || len(t.Val) > n || !bytes.Equal(t.Val, big[:len(t.Val)]) {
+										bad = fmt.Sprintf("the oversize parameter comes out as %d octets that are not a prefix of its value", len(t.Val))
+									}
+								case !ok:
+									bad = fmt.Sprintf("tag %#04x was never added", t.Tag)
+								case !bytes.Equal(want, t.Val):
+									bad = fmt.Sprintf("tag %#04x carries %s, added as %s", t.Tag, hx(t.Val), hx(want))
+								}
+							}
+							for t := range small {
+								if seen[t] != 1 {
+									bad = fmt.Sprintf("tag %#04x is emitted %d times", t, seen[t])
+								}
+							}
+							if seen[0x1234] > 1 {
+								bad = "the oversize parameter is emitted more than once"
+							}
+							if bad != "" {
+								c.Failf("long-value-damages-neighbours/"+name, "%s with a %d-octet value beside %d ordinary parameters: %s", name, n, len(small), bad)
+								break
+							}
+							c.Cover(fmt.Sprintf("longvalue-neighbours/%s/%d/%v", name, len(small), seen[0x1234] == 1))
+						}
 					}
 				},
 			},
